@@ -6,7 +6,7 @@ inductive Mode where
   | idle
   | vec (portable tracked : Bool) (s : St)
   | faulted
-  | flat (lt : Int → Int → Bool) (m : FMap) (s : FSet)
+  | flat (ltM ltS : Int → Int → Bool) (m : FMap) (s : FSet)   -- comparator of the map, of the set
 
 def showVec (v : Vec) : String :=
   let body :=
@@ -126,29 +126,34 @@ def parseSOp : List String → Option SOp
   | _ => none
 
 /-- the comparators the harness instantiates (`Compare` of flat_map / flat_set, handed to the model as `lt`) -/
-def cmpOf : String → Option (Int → Int → Bool)
-  | "less" => some ltInt                                            -- std::less<int>
-  | "greater" => some fun a b => decide (b < a)                      -- std::greater<int>
-  | "lastdigit" => some fun a b => decide (a.tmod 10 < b.tmod 10)    -- a % 10 < b % 10 (C++ truncating %)
-  | "sgreater" => some fun a b => decide (toString b < toString a)   -- std::greater<std::string> on std::to_string
+def cmpOf : String → Option ((Int → Int → Bool) × (Int → Int → Bool))
+  | "less" => some (ltInt, ltInt)                                   -- std::less<int>
+  | "greater" => some (fun a b => decide (b < a), fun a b => decide (b < a))   -- std::greater<int>
+  | "lastdigit" =>                                                   -- a % 10 < b % 10 (C++ truncating %)
+    some (fun a b => decide (a.tmod 10 < b.tmod 10), fun a b => decide (a.tmod 10 < b.tmod 10))
+  | "sgreater" =>                                                    -- std::greater<std::string> on std::to_string
+    some (fun a b => decide (toString b < toString a), fun a b => decide (toString b < toString a))
+  -- a stateful comparator type `Dir`: the set is built from the object Dir(true) (descending), the map has no
+  -- such constructor and uses the default-constructed Dir (ascending)
+  | "dirdesc" => some (ltInt, fun a b => decide (b < a))
   | _ => none
 
-def flatStep (lt : Int → Int → Bool) (m : FMap) (s : FSet) (ws : List String) : Option (FMap × FSet × String) :=
+def flatStep (ltM ltS : Int → Int → Bool) (m : FMap) (s : FSet) (ws : List String) : Option (FMap × FSet × String) :=
   match parseMOp ws with
-  | some op => let (m', r) := m.step lt op; some (m', s, showMRet r)
+  | some op => let (m', r) := m.step ltM op; some (m', s, showMRet r)
   | none =>
     match parseSOp ws with
-    | some op => let (s', r) := s.step lt op; some (m, s', showSRet r)
+    | some op => let (s', r) := s.step ltS op; some (m, s', showSRet r)
     | none =>
       -- copy construction / copy assignment / move of the whole map (defaulted members): the map is unchanged
       if ws = ["mcopy"] then some (m, s, "10") else none
 
 def stepLine (st : Mode) (line : String) : Mode × String :=
   match words line with
-  | ["reset", "flat", _] => (.flat ltInt {} {}, "ok")
+  | ["reset", "flat", _] => (.flat ltInt ltInt {} {}, "ok")
   | ["reset", "flat", _, c] =>
     match cmpOf c with
-    | some lt => (.flat lt {} {}, "ok")
+    | some (ltM, ltS) => (.flat ltM ltS {} {}, "ok")
     | none => (.idle, "bad-op")
   | ["reset", ty, var] =>
     if (ty = "int" ∨ ty = "trk") ∧ (var = "v" ∨ var = "p") then
@@ -158,9 +163,9 @@ def stepLine (st : Mode) (line : String) : Mode × String :=
     match st with
     | .idle => (st, "bad-op")
     | .faulted => (st, "fault")
-    | .flat lt m s =>
-      match flatStep lt m s ws with
-      | some (m, s, r) => (.flat lt m s, r ++ flatDump m s)
+    | .flat ltM ltS m s =>
+      match flatStep ltM ltS m s ws with
+      | some (m, s, r) => (.flat ltM ltS m s, r ++ flatDump m s)
       | none => (st, "bad-op")
     | .vec p t s =>
       if ws = ["end"] then
